@@ -30,6 +30,10 @@ func runC03(p *eng.Prog, r *eng.Report, tier string) {
 	c03Client(c)
 	c03Decode(c)
 	c03Chain(c)
+	// the SASL feature value is shared by every session that uses it: what one
+	// session's Parse saw (the mechanisms its server offered) must not be kept
+	// in, or alias, state that another session's Parse overwrites
+	c02Closures(c, "C03.10", "xmpp.newSASL")
 	errDiscipline(c, "C03.8", []*eng.Fn{c.p.Func("", "negotiateServer"), c.p.Func("", "negotiateClient"), c.p.Func("", "decodeSASLChallenge"), c.p.Func("", "sendSASLError"), c.p.Func("", "decodeIfSASLErr")}, acceptNEG, false)
 	// C03.9
 	if nf, call := negotiateSite(c, "C01.1"); nf != nil {
